@@ -1,19 +1,200 @@
 package main
 
-// Int mode (polynomial / mathematical-integer encoding). Filled in later; BV mode never reaches it.
+// math/big.Int in Int mode: the cell holds an unbounded Int term.
 
-import "golang.org/x/tools/go/ssa"
+import (
+	"math/big"
 
-type ITerm struct{}
+	"golang.org/x/tools/go/ssa"
+)
 
-func (r *Run) intBig(fn *ssa.Function, a []Value) (Value, bool) { return nil, false }
-func (r *Run) intBigFromTerm(t *Term, signed bool) *BigV       { panic(unsupported("int mode")) }
-func (r *Run) intBigFromBytes(b []*Term) *BigV                  { panic(unsupported("int mode")) }
-func (r *Run) intBigFromWords(w []*Term) *BigV                  { panic(unsupported("int mode")) }
-func (r *Run) intBigBytes(x *BigV) Value                        { panic(unsupported("int mode")) }
-func (r *Run) intBigCmp(x, y *BigV) Value                       { panic(unsupported("int mode")) }
-func (r *Run) intBigSign(x *BigV) Value                         { panic(unsupported("int mode")) }
-func (r *Run) intBigToTerm(x *BigV, w int) Value                { panic(unsupported("int mode")) }
-func (r *Run) intBigBitLen(x *BigV) Value                       { panic(unsupported("int mode")) }
-func (r *Run) intBigBit(x *BigV, i int) Value                   { panic(unsupported("int mode")) }
-func (r *Run) intBigBits(x *BigV) Value                         { panic(unsupported("int mode")) }
+type ITerm = Term
+
+func (r *Run) bigTerm(x *BigV) *Term {
+	if x.sym != nil {
+		return x.sym
+	}
+	if x.bsym != nil {
+		panic(unsupported("byte-vector big.Int mixed with Int mode"))
+	}
+	return r.ts.IConst(x.v)
+}
+
+func (r *Run) setBig(z *BigV, t *Term) {
+	if t.IsConst() {
+		z.v, z.sym, z.bsym = new(big.Int).Set(t.bk), nil, nil
+		return
+	}
+	z.v, z.sym, z.bsym = nil, t, nil
+}
+
+func bigAnySym(xs ...*BigV) bool {
+	for _, x := range xs {
+		if x.sym != nil {
+			return true
+		}
+	}
+	return false
+}
+
+// intBig handles the arithmetic methods when an operand is symbolic. a[0] is the receiver.
+func (r *Run) intBig(fn *ssa.Function, a []Value) (Value, bool) {
+	name := fn.Name()
+	ts := r.ts
+	switch name {
+	case "Add", "Sub", "Mul", "Div", "Mod", "Quo", "Rem":
+		x, y := r.bigCell(a[1], false), r.bigCell(a[2], false)
+		if !bigAnySym(x, y) {
+			return nil, false
+		}
+		xt, yt := r.bigTerm(x), r.bigTerm(y)
+		var res *Term
+		switch name {
+		case "Add":
+			res = ts.IAdd(xt, yt)
+		case "Sub":
+			res = ts.ISub(xt, yt)
+		case "Mul":
+			res = ts.IMul(xt, yt)
+		default:
+			if !yt.IsConst() {
+				panic(unsupported("big.Int division by a symbolic divisor at " + r.curPos()))
+			}
+			if yt.bk.Sign() == 0 {
+				r.goPanic("division by zero")
+			}
+			if yt.bk.Sign() < 0 || xt.lo.Sign() < 0 {
+				panic(unsupported("big.Int division with possibly negative operands at " + r.curPos()))
+			}
+			if name == "Div" || name == "Quo" {
+				res = ts.IDivC(xt, yt.bk)
+			} else {
+				res = ts.IModC(xt, yt.bk)
+			}
+		}
+		r.setBig(r.bigCell(a[0], true), res)
+		return a[0], true
+	case "DivMod":
+		x, y := r.bigCell(a[1], false), r.bigCell(a[2], false)
+		if !bigAnySym(x, y) {
+			return nil, false
+		}
+		xt, yt := r.bigTerm(x), r.bigTerm(y)
+		if !yt.IsConst() || yt.bk.Sign() <= 0 || xt.lo.Sign() < 0 {
+			panic(unsupported("big.Int.DivMod with symbolic/negative divisor at " + r.curPos()))
+		}
+		q, m := ts.IDivC(xt, yt.bk), ts.IModC(xt, yt.bk)
+		r.setBig(r.bigCell(a[0], true), q)
+		r.setBig(r.bigCell(a[3], true), m)
+		return TupleV{a[0], a[3]}, true
+	case "Lsh", "Rsh":
+		x := r.bigCell(a[1], false)
+		if !bigAnySym(x) {
+			return nil, false
+		}
+		n := int(r.concretizeInt(a[2].(*Term), "big shift").Int64())
+		xt := r.bigTerm(x)
+		var res *Term
+		if name == "Lsh" {
+			res = ts.IMulC(pow2(n), xt)
+		} else {
+			if xt.lo.Sign() < 0 {
+				panic(unsupported("big.Int.Rsh of a possibly negative value"))
+			}
+			res = ts.IDivC(xt, pow2(n))
+		}
+		r.setBig(r.bigCell(a[0], true), res)
+		return a[0], true
+	}
+	return nil, false
+}
+
+func (r *Run) intBigFromTerm(t *Term, signed bool) *BigV {
+	if t.IsConst() {
+		return &BigV{v: new(big.Int).Set(t.bk)}
+	}
+	return &BigV{sym: t}
+}
+
+func (r *Run) intBigFromBytes(b []*Term) *BigV {
+	ts := r.ts
+	acc := ts.IConst(bigZero)
+	for i, x := range b {
+		acc = ts.IAdd(acc, ts.IMulC(pow2(8*(len(b)-1-i)), x))
+	}
+	out := &BigV{}
+	r.setBig(out, acc)
+	return out
+}
+
+func (r *Run) intBigFromWords(w []*Term) *BigV {
+	ts := r.ts
+	acc := ts.IConst(bigZero)
+	for i, x := range w {
+		acc = ts.IAdd(acc, ts.IMulC(pow2(64*i), x))
+	}
+	out := &BigV{}
+	r.setBig(out, acc)
+	return out
+}
+
+// unitLen forks on the number of base-2^k digits of a non-negative value.
+func (r *Run) unitLen(v *Term, k int) int {
+	if v.lo.Sign() < 0 {
+		panic(unsupported("digits of a possibly negative big.Int"))
+	}
+	max := (v.hi.BitLen() + k - 1) / k
+	for n := 0; n < max; n++ {
+		if r.branch(r.ts.ILt(v, r.ts.IConst(pow2(k*n)))) {
+			return n
+		}
+	}
+	return max
+}
+
+func (r *Run) intBigBytes(x *BigV) Value {
+	v := x.sym
+	n := r.unitLen(v, 8)
+	out := make([]*Term, n)
+	for i := 0; i < n; i++ {
+		out[i] = r.ts.IModC(r.ts.IDivC(v, pow2(8*(n-1-i))), pow2(8))
+	}
+	return r.newByteSlice(out, n)
+}
+
+func (r *Run) intBigBits(x *BigV) Value {
+	v := x.sym
+	n := r.unitLen(v, 64)
+	arr := &ArrayV{e: make([]Value, n)}
+	for i := 0; i < n; i++ {
+		arr.e[i] = r.ts.IModC(r.ts.IDivC(v, pow2(64*i)), pow2(64))
+	}
+	o := r.newObj(nil, arr)
+	return &SliceV{obj: o, len: n, cap: n}
+}
+
+func (r *Run) intBigCmp(x, y *BigV) Value {
+	ts := r.ts
+	xt, yt := r.bigTerm(x), r.bigTerm(y)
+	return ts.Ite(ts.ILt(xt, yt), ts.IConst64(-1), ts.Ite(ts.IEq(xt, yt), ts.IConst64(0), ts.IConst64(1)))
+}
+
+func (r *Run) intBigSign(x *BigV) Value {
+	ts := r.ts
+	xt := r.bigTerm(x)
+	z := ts.IConst(bigZero)
+	return ts.Ite(ts.ILt(xt, z), ts.IConst64(-1), ts.Ite(ts.IEq(xt, z), ts.IConst64(0), ts.IConst64(1)))
+}
+
+func (r *Run) intBigToTerm(x *BigV, w int) Value {
+	// Int64()/Uint64(): low 64 bits of the magnitude (sign applied by two's complement for Int64)
+	return r.ts.IModC(r.bigTerm(x), pow2(64))
+}
+
+func (r *Run) intBigBitLen(x *BigV) Value {
+	return r.ts.IConst64(int64(r.unitLen(x.sym, 1)))
+}
+
+func (r *Run) intBigBit(x *BigV, i int) Value {
+	return r.ts.IModC(r.ts.IDivC(x.sym, pow2(i)), pow2(1))
+}
